@@ -97,6 +97,12 @@ def handle : List String → Option String
       let r := ipPut (parseKeys readable) (some resp)
       some s!"{showKeys r.notified} | {showResult r.status}"
     | _ => some "bad-json"
+  | ["cl.ipputc", code, readable, json] =>
+    -- status line + body as they come off the wire; json = "-" when the body is not a JSON object
+    let body : Option Obj := match parseJ json with | some (.obj resp) => some resp | _ => none
+    some (match ipPutHttp (parseKeys readable) code.toNat! body with
+      | .failed => "failed"
+      | .result r => s!"{showKeys r.notified} | {showResult r.status}")
   | "cl.coapput" :: items =>
     -- item = aid.iid:r|w:result
     let parsed := items.filterMap fun it => match it.splitOn ":" with
